@@ -88,6 +88,10 @@ type Boundary struct {
 	jitterN     int64
 
 	parked int64 // goroutines parked because their instance is frozen
+
+	// Passthrough != 0: the boundary records nothing, injects nothing and takes NO lock (C34: the race detector
+	// must not see the harness's own mutexes as synchronisation between core's goroutines)
+	Passthrough int32
 }
 
 // NewBoundary creates the process-wide boundary.
@@ -212,6 +216,9 @@ func (b *Boundary) park() {
 
 // Note records a non-gated event (lock operations, stream events, harness markers).
 func (b *Boundary) Note(inst, layer, op, arg string, err error) {
+	if atomic.LoadInt32(&b.Passthrough) != 0 {
+		return
+	}
 	ev := Event{Inst: inst, G: goid(), Layer: layer, Op: op, Arg: arg}
 	if err != nil {
 		ev.Err = err.Error()
@@ -223,7 +230,7 @@ func (b *Boundary) Note(inst, layer, op, arg string, err error) {
 // returned) and, for a fail-before fault, a non-nil injected error: the caller must then NOT perform the
 // real call and must still call done(injected).
 func (b *Boundary) Call(inst, layer, op, arg string) (done func(err error), injected error) {
-	if b == nil {
+	if b == nil || atomic.LoadInt32(&b.Passthrough) != 0 {
 		return func(error) {}, nil
 	}
 	b.mu.Lock()
@@ -322,7 +329,7 @@ func TagOf(ctx context.Context) string {
 // recorded and offered to the OnCall / OnDone hooks (the interleaving scheduler), but it neither takes the gate
 // nor counts for fault plans. The returned func must be called when the step returned.
 func (b *Boundary) Point(inst, layer, op, arg, tag string) (done func(err error)) {
-	if b == nil {
+	if b == nil || atomic.LoadInt32(&b.Passthrough) != 0 {
 		return func(error) {}
 	}
 	b.mu.Lock()
